@@ -125,6 +125,16 @@ pub enum B {
     Pow, Add, Sub, Cross, Dot, Mul, Div, Atan2, Rem, BitOr, BitAnd, Xor, Shr, Shl, And, Or, Eq, Ge, Gt, Le, Lt, Ne, If, Else, Min, Max, Comp,
 }
 
+/// a single cell of a binary operator (used for the integer power, whose full numeric group is thorough-tier)
+pub fn check_bin_single(idx: usize, name: &str, op: B, ka: u8, kb: u8) {
+    let ops = ValOpsFactory::<i32, f64>::make();
+    assert!(ops[idx].repr() == name);
+    let f = ops[idx].bin().unwrap().apply;
+    cell_bin(f, op, ka, kb);
+    kani::cover!(true, "cell executed");
+    core::mem::forget(ops);
+}
+
 fn is_err(v: &V) -> bool {
     matches!(v, Val::Error(_))
 }
